@@ -79,7 +79,9 @@ def true_divide(
             exponents=x1.exponents,
             shape=x1.shape,
             names=x1.indeterminants,
-            dtype=numpy.common_type(x1, numpy.array(1.0)),
+            dtype=numpy.true_divide(
+                numpy.empty(0, dtype=x1.dtype), numpy.empty(0, dtype=x2.dtype)
+            ).dtype,
         )
     else:
         assert len(out) == 1
